@@ -112,6 +112,7 @@ class Run(object):
         self.in_sched_flush = []      # stack of batch ids between Before and After
         self.uid = 0
         self.leafobjs = []
+        self.callers = []             # who is calling into asynq right now: "direct" (item.value() from a body) / "sync"
         self.debug_bids = {}          # id(DebugBatch) -> batch id
         self.last_struct = {}         # t -> [(fid, obj)]
         self.svars = [None] + [_sv.AsyncScopedValue(0) for _ in range(prog.get("nvars", 0))]
@@ -513,12 +514,15 @@ class Run(object):
                                     it = make_debug_item(run, op["a"], fid, t)
                                 else:
                                     it = VItem(run, op["a"], fid, t)
+                                run.callers.append("direct")
                                 try:
                                     val = it.value()
                                 except BaseException as e:
+                                    run.callers.pop()
                                     vid, uid = run.exc_ids(e)
                                     run.emit("IVal", t=t, a=fid, v=V("x", vid), u=uid)
                                     raise
+                                run.callers.pop()
                                 run.emit("IVal", t=t, a=fid, v=run.enc(val), u=0)
                                 recvs.append(val)
                             elif o == "dirty":
@@ -599,6 +603,13 @@ class Run(object):
         """synchronous call of task u from inside task t's body (re-entrant wait_for)"""
         self.emit("SyncBegin", t=t, a=u)
         self.depth += 1
+        self.callers.append("sync")
+        try:
+            return self._sync_call(t, u)
+        finally:
+            self.callers.pop()
+
+    def _sync_call(self, t, u):
         try:
             obj = self.task_obj.get(u)
             if obj is None:
@@ -780,7 +791,7 @@ class VBatch(BatchBase):
 
     def _flush(self):
         run = self.run
-        by = 1 if (run.in_sched_flush and run.in_sched_flush[-1] == self.bid) else 0
+        by = 0 if (run.callers and run.callers[-1] == "direct") else 1
         items = list(self.items)
         run.emit("FlushBegin", b=self.bid, a=by, xs=[i.fid for i in items])
         mode = run.prog["kinds"][self.kind - 1].get("flush", "ok")
@@ -803,6 +814,12 @@ class VBatch(BatchBase):
                     if it.fid % 2 == 0:
                         it.set_value(IV(it.fid))
                 raise run.new_err(30000 + self.kind)
+            elif mode == "nest":
+                # the flush body itself calls asynq synchronously (e.g. to look something up): a nested wait_for,
+                # which may have to flush another batch while this flush is still in progress
+                for it in items:
+                    it.set_value(IV(it.fid))
+                run.sync_call(0, run.prog["kinds"][self.kind - 1]["nest"])
             elif mode == "spawn":
                 for it in items:
                     it.set_value(IV(it.fid))
